@@ -297,24 +297,34 @@ Proof. refine (mkPre (fun s s' => w_closures s' = w_closures s) _ _); [auto | in
 Definition out_only : preorder.
 Proof. refine (mkPre (fun s s' => b_out s' = b_out s) _ _); [auto | intros a b c H1 H2; congruence]. Defined.
 
+Definition closd_frame : preorder.
+Proof.
+  refine (mkPre (fun s s' => w_closures s' = w_closures s /\ b_descriptors s' = b_descriptors s) _ _);
+    [auto | intros a b c [A1 A2] [B1 B2]; split; congruence].
+Defined.
+
 Lemma run_closure_docs cb r s s' r0 :
   run_closure cb r s = (s', r0) ->
-  w_closures s' = w_closures s /\
+  w_closures s' = w_closures s /\ b_descriptors s' = b_descriptors s /\
   exists out, b_out s' = b_out s ++ out /\
-    forall x, In x out -> exists u seq data fl o' d,
-      x = DEvent u (de_uid d) seq data fl /\ dget (w_closures s) cb = Some (o', d).
+    forall x, In x out -> exists u seq data fl o' dc d,
+      x = DEvent u (de_uid d) seq data fl /\ dget (w_closures s) cb = Some (o', dc) /\
+      dget (b_descriptors s) (de_name dc) = Some d.
 Proof.
   intros H.
-  assert (F : rel clos_frame (run_closure cb r)) by (unfold run_closure; rel_go ltac:(reflexivity)).
-  specialize (F s). rewrite H in F. cbn in F. split; [exact F|].
+  assert (F : rel closd_frame (run_closure cb r)) by (unfold run_closure; rel_go ltac:(split; reflexivity)).
+  specialize (F s). rewrite H in F. cbn in F. destruct F as [F1 F2]. split; [exact F1|]. split; [exact F2|].
   unfold run_closure in H. rewrite bind_get_eq, bind_of_opt_eq in H.
-  destruct (dget (w_closures s) cb) as [[o' d]|] eqn:Hc.
+  destruct (dget (w_closures s) cb) as [[o' dc]|] eqn:Hc.
   2:{ inversion H; subst. exists []. rewrite app_nil_r. split; [reflexivity | intros x []]. }
-  unfold bind at 1 in H. cbn [snd] in H.
+  cbn [snd] in H. rewrite bind_of_opt_eq in H.
+  destruct (dget (b_descriptors s) (de_name dc)) as [d|] eqn:Hd.
+  2:{ inversion H; subst. exists []. rewrite app_nil_r. split; [reflexivity | intros x []]. }
+  unfold bind at 1 in H.
   destruct (compose_event d (dupdate [] r) [] s) as [s1 [ev|e]] eqn:Hce.
   - apply compose_event_ok in Hce. destruct Hce as (seq & _ & -> & _ & _ & _ & O & _).
     unfold emit, modify in H. inversion H; subst. cbn. rewrite O.
-    eexists. split; [reflexivity|]. intros x [<-|[]]. repeat eexists.
+    eexists. split; [reflexivity|]. intros x [<-|[]]. repeat eexists; eauto.
   - assert (O : b_out s1 = b_out s).
     { assert (R : rel out_only (compose_event d (dupdate [] r) [])) by (unfold compose_event; rel_go ltac:(reflexivity)).
       specialize (R s). rewrite Hce in R. apply R. }
@@ -323,58 +333,47 @@ Qed.
 
 Lemma mon_event_docs o r : forall l s s' r0,
   iterM (fun oc : obj * nat => if Nat.eqb (fst oc) o then run_closure (snd oc) r else ret tt) l s = (s', r0) ->
-  w_closures s' = w_closures s /\
+  w_closures s' = w_closures s /\ b_descriptors s' = b_descriptors s /\
   exists out, b_out s' = b_out s ++ out /\
-    forall x, In x out -> exists u seq data fl cb o' d,
-      x = DEvent u (de_uid d) seq data fl /\ In (o, cb) l /\ dget (w_closures s) cb = Some (o', d).
+    forall x, In x out -> exists u seq data fl d nm,
+      x = DEvent u (de_uid d) seq data fl /\ dget (b_descriptors s) nm = Some d.
 Proof.
   induction l as [|[ob cb] l IH]; intros s s' r0 H; cbn [iterM] in H.
-  - inversion H; subst. split; [reflexivity|]. exists []. rewrite app_nil_r. split; [reflexivity | intros x []].
+  - inversion H; subst. split; [reflexivity|]. split; [reflexivity|].
+    exists []. rewrite app_nil_r. split; [reflexivity | intros x []].
   - unfold bind in H. cbn [fst snd] in H.
     destruct (Nat.eqb ob o) eqn:Eo.
-    + apply Nat.eqb_eq in Eo. subst ob.
-      destruct (run_closure cb r s) as [s1 r1] eqn:H1. apply run_closure_docs in H1.
-      destruct H1 as (C1 & out1 & O1 & D1).
+    + destruct (run_closure cb r s) as [s1 r1] eqn:H1. apply run_closure_docs in H1.
+      destruct H1 as (C1 & B1 & out1 & O1 & D1).
+      assert (D1' : forall x, In x out1 -> exists u seq data fl d nm,
+                      x = DEvent u (de_uid d) seq data fl /\ dget (b_descriptors s) nm = Some d).
+      { intros x Hx. destruct (D1 x Hx) as (u & seq & data & fl & o' & dc & d & -> & _ & Hd).
+        exists u, seq, data, fl, d, (de_name dc). auto. }
       destruct r1 as [[]|e].
-      * apply IH in H. destruct H as (C2 & out2 & O2 & D2). split; [congruence|].
+      * apply IH in H. destruct H as (C2 & B2 & out2 & O2 & D2). split; [congruence|]. split; [congruence|].
         exists (out1 ++ out2). split; [rewrite O2, O1, app_assoc; reflexivity|].
-        intros x Hx. apply in_app_or in Hx. destruct Hx as [Hx|Hx].
-        -- destruct (D1 x Hx) as (u & seq & data & fl & o' & d & -> & Hc). exists u, seq, data, fl, cb, o', d.
-           split; [reflexivity|]. split; [left; reflexivity | exact Hc].
-        -- destruct (D2 x Hx) as (u & seq & data & fl & cb' & o' & d & -> & Hin & Hc).
-           exists u, seq, data, fl, cb', o', d. split; [reflexivity|]. split; [right; exact Hin | rewrite <- C1; exact Hc].
-      * inversion H; subst. split; [exact C1|]. exists out1. split; [exact O1|].
-        intros x Hx. destruct (D1 x Hx) as (u & seq & data & fl & o' & d & -> & Hc). exists u, seq, data, fl, cb, o', d.
-        split; [reflexivity|]. split; [left; reflexivity | exact Hc].
-    + cbn in H. apply IH in H. destruct H as (C2 & out2 & O2 & D2). split; [exact C2|].
-      exists out2. split; [exact O2|]. intros x Hx.
-      destruct (D2 x Hx) as (u & seq & data & fl & cb' & o' & d & -> & Hin & Hc).
-      exists u, seq, data, fl, cb', o', d. split; [reflexivity|]. split; [right; exact Hin | exact Hc].
+        intros x Hx. apply in_app_or in Hx. destruct Hx as [Hx|Hx]; [apply D1'; exact Hx|].
+        destruct (D2 x Hx) as (u & seq & data & fl & d & nm & -> & Hd). exists u, seq, data, fl, d, nm.
+        split; [reflexivity | rewrite <- B1; exact Hd].
+      * inversion H; subst. split; [exact C1|]. split; [exact B1|]. exists out1. split; [exact O1 | exact D1'].
+    + cbn in H. apply IH in H. exact H.
 Qed.
 
-(* outside the finding class C16-a every event of a firing monitor references the latest descriptor of its stream *)
+(* every event of a firing monitor references the descriptor registered for its stream: the latest one *)
 Theorem monitor_events_latest E s tr o r s' docs res :
-  stale_fire tr s (OMonEvent o r) = false -> step E s (OMonEvent o r) = (s', docs, res) ->
+  latest_inv tr (clear_buffers s) -> step E s (OMonEvent o r) = (s', docs, res) ->
   forall x, In x docs -> exists u seq data fl d,
     x = DEvent u (de_uid d) seq data fl /\ In (DDescr d) tr /\ latest_descr tr (de_name d) = Some d.
 Proof.
-  intros Hst Hs. apply step_inv in Hs. destruct Hs as (r0 & He & -> & _).
+  intros [L _] Hs. apply step_inv in Hs. destruct Hs as (r0 & He & -> & _).
   cbn [exec] in He. unfold mon_event in He. rewrite bind_get_eq in He.
-  apply mon_event_docs in He. destruct He as (_ & out & O & D). cbn in O. subst out.
-  intros x Hx. destruct (D x Hx) as (u & seq & data & fl & cb & o' & d & -> & Hin & Hc).
-  exists u, seq, data, fl, d. split; [reflexivity|].
-  cbn [stale_fire] in Hst. change (w_subs (clear_buffers s)) with (w_subs s) in Hin.
-  change (w_closures (clear_buffers s)) with (w_closures s) in Hc.
-  assert (Hcb : stale_closure tr s cb = false).
-  { destruct (stale_closure tr s cb) eqn:Es; [|reflexivity]. exfalso.
-    apply Bool.not_true_iff_false in Hst. apply Hst.
-    apply existsb_exists. exists (o, cb). split; [exact Hin|]. cbn. rewrite Nat.eqb_refl, Es. reflexivity. }
-  unfold stale_closure in Hcb. rewrite Hc in Hcb. apply negb_false_iff in Hcb.
-  destruct (latest_descr tr (de_name d)) as [d'|] eqn:El; [|discriminate]. cbn in Hcb. apply descr_beq_eq in Hcb. subst d'.
-  split; [|reflexivity]. apply latest_in in El. apply El.
+  apply mon_event_docs in He. destruct He as (_ & _ & out & O & D). cbn in O. subst out.
+  intros x Hx. destruct (D x Hx) as (u & seq & data & fl & d & nm & -> & Hd).
+  destruct (L nm d Hd) as (_ & A2 & A3 & A4). cbn in A3, A4. rewrite app_nil_r in A3, A4.
+  exists u, seq, data, fl, d. rewrite A2. auto.
 Qed.
 
-(* ---- C16-a: the unchanged code violates the property inside the class *)
+(* ---- descriptor equality is reflexive *)
 Lemma descr_beq_refl d : descr_beq d d = true.
 Proof.
   unfold descr_beq. rewrite !andb_true_iff. repeat split.
@@ -386,34 +385,7 @@ Proof.
   - apply (dict_beq_eq _ (option_beq_eq _ Z.eqb_eq)); reflexivity.
 Qed.
 
-Lemma events_use_latest_reflect rest : forall pre,
-  events_use_latest (pre ++ rest) -> events_use_latest_b pre rest = true.
-Proof.
-  induction rest as [|x rest IH]; intros pre H; [reflexivity|].
-  cbn [events_use_latest_b]. apply andb_true_iff. split.
-  - destruct x; try reflexivity.
-    destruct (H pre u de seq data filled rest eq_refl) as (d & Hin & Hu & Hl).
-    apply existsb_exists. exists (DDescr d). split; [exact Hin|].
-    rewrite Hu, Hl. cbn. rewrite descr_beq_refl. destruct de; cbn; rewrite Nat.eqb_refl; reflexivity.
-  - apply IH. rewrite <- app_assoc. exact H.
-Qed.
 
-Definition c16a_devs : dict devspec :=
-  [(1, mkDev true true true false false false false false false [(1, ExtNone)] [])].
-Definition c16a_hist : list op :=
-  [OOpenRun; OMonitor 1 5 false; OConfigure 1 42%Z; OMonEvent 1 [(1, 11%Z)]].
-
-Lemma c16a_refuted :
-  exists E st ri h, no_name0 h /\ finding_C16_a E (init st ri) [] h = true /\
-                    ~ events_use_latest (trace E (init st ri) h).
-Proof.
-  exists (env_of c16a_devs), false, false, c16a_hist.
-  split; [reflexivity|]. split; [vm_compute; reflexivity|].
-  intros H. apply (events_use_latest_reflect _ []) in H.
-  assert (F : events_use_latest_b [] (trace (env_of c16a_devs) (init false false) c16a_hist) = false)
-    by (vm_compute; reflexivity).
-  rewrite F in H. discriminate H.
-Qed.
 
 (* ------------------------------------------------------------------ configuration recorded in descriptors; configure; uid supply *)
 
@@ -1167,11 +1139,11 @@ Proof. intros [I _] nm d H. destruct (I nm d H) as (_ & A & B & _). auto. Qed.
 
 Lemma step_events E s tr o s' docs r :
   latest_inv tr (clear_buffers s) -> int_inv tr (clear_buffers s) ->
-  uses_name0 o = false -> stale_fire tr s o = false ->
+  uses_name0 o = false ->
   step E s o = (s', docs, r) ->
   forall pre u de seq data fl post, docs = pre ++ DEvent u de seq data fl :: post -> ev_claim (tr ++ pre) de.
 Proof.
-  intros L I Hu Hst Hs pre u de seq data fl post Hd.
+  intros L I Hu Hs pre u de seq data fl post Hd.
   destruct (event_op o) eqn:Eo.
   2:{ (* no event at all *)
       apply step_inv in Hs. destruct Hs as (r0 & He & -> & _).
@@ -1199,7 +1171,7 @@ Proof.
     destruct L1 as [L1 _]. destruct (L1 _ _ Hreg) as (_ & _ & _ & L4).
     rewrite D, app_assoc, latest_snoc_other in L4 by reflexivity. exact L4.
   - (* a monitor fires *)
-    pose proof (monitor_events_latest E s tr o r0 s' docs r Hst Hs) as M.
+    pose proof (monitor_events_latest E s tr o r0 s' docs r L Hs) as M.
     assert (Hx : In (DEvent u de seq data fl) docs) by (rewrite Hd; apply in_or_app; right; left; reflexivity).
     destruct (M _ Hx) as (u' & seq' & data' & fl' & d & Heq & Hin & Hl). inversion Heq; subst.
     assert (Hpre : forallb not_descr pre = true).
@@ -1236,19 +1208,11 @@ Proof. reflexivity. Qed.
 Lemma run_cons_trace E s o h : trace E s (o :: h) = snd (fst (step E s o)) ++ trace E (fst (fst (step E s o))) h.
 Proof. reflexivity. Qed.
 
-Lemma finding_snoc E : forall h s tr o,
-  finding_C16_a E s tr (h ++ [o]) = finding_C16_a E s tr h || stale_fire (tr ++ trace E s h) (final E s h) o.
-Proof.
-  induction h as [|a h IH]; intros s tr o.
-  - cbn [app finding_C16_a]. rewrite orb_false_r. unfold trace, final. cbn. rewrite app_nil_r. reflexivity.
-  - cbn [app finding_C16_a]. rewrite IH, run_cons_final, run_cons_trace, orb_assoc, app_assoc. reflexivity.
-Qed.
-
 Theorem events_follow_descriptors_main E st ri h :
-  no_name0 h -> finding_C16_a E (init st ri) [] h = false ->
+  no_name0 h ->
   events_follow_descriptors (trace E (init st ri) h).
 Proof.
-  intros Hn Hf.
+  intros Hn.
   assert (G : latest_inv (trace E (init st ri) h) (clear_buffers (final E (init st ri) h)) /\
               int_inv (trace E (init st ri) h) (clear_buffers (final E (init st ri) h)) /\
               events_follow_descriptors (trace E (init st ri) h)).
@@ -1257,8 +1221,7 @@ Proof.
       split; [intros d H; discriminate|]. intros pre u de seq data fl post H. destruct pre; discriminate H.
     - unfold no_name0 in Hn. rewrite forallb_app in Hn. apply andb_true_iff in Hn. destruct Hn as [Hh Ho].
       cbn in Ho. rewrite andb_true_r in Ho. apply negb_true_iff in Ho.
-      rewrite finding_snoc in Hf. apply orb_false_iff in Hf. destruct Hf as [Hfh Hst]. cbn [app] in Hst.
-      destruct (IH Hh Hfh) as (L & I & Ev). clear IH.
+      destruct (IH Hh) as (L & I & Ev). clear IH.
       rewrite final_snoc, trace_snoc.
       set (s := final E (init st ri) h) in *. set (tr := trace E (init st ri) h) in *.
       destruct (step E s o) as [[s' docs] r] eqn:Hs. cbn [fst snd].
@@ -1273,35 +1236,17 @@ Proof.
       + intros pre u de seq data fl post Hd. apply app_split in Hd.
         destruct Hd as [(post' & Hd & _)|(pre' & -> & Hd)].
         * exact (Ev _ _ _ _ _ _ _ Hd).
-        * exact (step_events E s tr o s' docs r L I Ho Hst Hs _ _ _ _ _ _ _ Hd). }
+        * exact (step_events E s tr o s' docs r L I Ho Hs _ _ _ _ _ _ _ Hd). }
   apply G.
 Qed.
 
-(* ---- the full statement (without the finding hypothesis) fails on the unchanged code *)
-Lemma events_follow_reflect rest : forall pre,
-  events_follow_descriptors (pre ++ rest) -> events_follow_descriptors_b pre rest = true.
-Proof.
-  induction rest as [|x rest IH]; intros pre H; [reflexivity|].
-  cbn [events_follow_descriptors_b]. apply andb_true_iff. split.
-  - destruct x; try reflexivity.
-    destruct (H pre u de seq data filled rest eq_refl) as (d & Hin & Hu & Hl).
-    apply existsb_exists. exists (DDescr d). split; [exact Hin|].
-    rewrite Hu. apply andb_true_iff. split; [destruct de; cbn; apply Nat.eqb_refl|].
-    destruct Hl as [Hl|Hl]; [rewrite Hl; reflexivity|].
-    rewrite Hl. cbn. rewrite descr_beq_refl. apply orb_true_r.
-  - apply IH. rewrite <- app_assoc. exact H.
-Qed.
-
-Lemma c16a_refuted_main :
-  exists E st ri h, no_name0 h /\ finding_C16_a E (init st ri) [] h = true /\
-                    ~ events_follow_descriptors (trace E (init st ri) h).
-Proof.
-  exists (env_of c16a_devs), false, false, c16a_hist.
-  split; [reflexivity|]. split; [vm_compute; reflexivity|].
-  intros H. apply (events_follow_reflect _ []) in H.
-  assert (F : events_follow_descriptors_b [] (trace (env_of c16a_devs) (init false false) c16a_hist) = false)
-    by (vm_compute; reflexivity).
-  rewrite F in H. discriminate H.
-Qed.
-
-(* events of a save reference the latest descriptor of the bundle's stream (corollary of the main theorem's step) *)
+(* ---- regression: the history that violated the property before the repair of C16-a (monitor closures used to keep
+   the compose_event of the descriptor that existed when monitoring started) *)
+Definition c16a_devs : dict devspec :=
+  [(1, mkDev true true true false false false false false false [(1, ExtNone)] [])].
+Definition c16a_hist : list op :=
+  [OOpenRun; OMonitor 1 5 false; OConfigure 1 42%Z; OMonEvent 1 [(1, 11%Z)]].
+Lemma c16a_regression :
+  events_follow_descriptors_b [] (trace (env_of c16a_devs) (init false false) c16a_hist) = true /\
+  length (trace (env_of c16a_devs) (init false false) c16a_hist) = 4.
+Proof. split; vm_compute; reflexivity. Qed.
